@@ -85,6 +85,35 @@ Definition cp_mode_dot_h (h : heap) (r : href) (copy : bool) (x : operand (F:=F)
     end
   else Err.
 
+(* the repaired tree (candidate patch C04_cp_mode_dot_inplace_alias): `factors[mode] = factors[mode] * factor` -- the product
+   goes to a FRESH array and only the list cell is updated; everything else as above.  Which of the two variants the current
+   source has is read off its syntax tree on every run (harness: inplace_from_source). *)
+Definition cp_mode_dot_h_fresh (h : heap) (r : href) (copy : bool) (x : operand (F:=F)) (mode : nat) (keep_dim : bool) : res (heap * nat) :=
+  let opnd := deref h r in
+  if operand_okb opnd then
+    match cp_mode_dot Op (operand_w Op opnd) (operand_fs opnd) x mode keep_dim with
+    | Err => Err
+    | Ok (_, fs') =>
+        let '(h1, fl1) := if copy then copy_list h (ref_fs h r) else (h, ref_fs h r) in
+        let '(h1, wl1) := if copy then copy_w h1 (ref_w h r) else (h1, ref_w h r) in
+        let ls := lst h1 fl1 in
+        let h2 :=
+          if is_contract x keep_dim then
+            let ls' := remove_nth mode ls in
+            let m' := pred mode in
+            let (h1a, l) := alloc_arr (set_lst h1 fl1 ls') (nth m' fs' []) in set_lst h1a fl1 (set_nth m' l ls')
+          else
+            let (h1a, l) := alloc_arr h1 (nth mode fs' []) in set_lst h1a fl1 (set_nth mode l ls) in
+        match r with
+        | RObject o =>
+            if copy then new_obj h2 wl1 fl1
+            else Ok (set_obj h2 o (mk_cell (cp_shape (read_fs h2 (lst h2 fl1))) (c_w (obj h2 o)) (c_fs (obj h2 o))), o)
+        | RTuple _ _ => new_obj h2 wl1 fl1
+        end
+    end
+  else Err.
+Definition cp_mode_dot_h_src (inplace : bool) := if inplace then cp_mode_dot_h else cp_mode_dot_h_fresh.
+
 (* ------------------------------------------------------------------ ownership vocabulary *)
 (* the locations an object owns *)
 Definition owned (h : heap) (o : nat) : list nat := c_w (obj h o) :: lst h (c_fs (obj h o)).
